@@ -82,6 +82,8 @@ def grid(tier):
                                   ({"mnemonics_header": True, "wrap": True}, {"wrap": False}))):
             yield {"input": "gen", "seed": 3000 + 10 * fi + j, "cfg1": cfgs[0], "cfg2": cfgs[1], "fmt": fi, "gen_version": 2 if j % 2 else 1.2, "src_case": "upper"}
             yield {"input": "tests/examples/sample.las", "cfg1": cfgs[0], "cfg2": cfgs[1], "fmt": fi}
+    for k2 in range(3):      # witness of the known finding: a date-like text curve, wrapped vs unwrapped
+        yield {"input": "gen", "seed": 7000 + k2, "cfg1": {"version": 2, "wrap": True}, "cfg2": {"version": 2, "wrap": False}, "fmt": 0, "gen_version": 2, "src_case": "upper", "date_curve": True}
     # wide tables: data rows of every length relative to the 79 / 255 / 256-character marks, with and without wrapping
     k = 0
     for extra in (5, 6, 13, 20, 22, 23, 24, 27, 29, 34, 41, 55):
@@ -141,6 +143,9 @@ def run_case(case, ctx):
         spec = lasobj.rand_spec(random.Random(case["seed"]), text_curve=0.0)
         try:
             b = io.StringIO()
+            if case.get("date_curve"):
+                nrows = len(spec["curves"][0][4])
+                spec["curves"].append(["DATE", "", "", "text curve of dates", ["2018-05-%02d" % (i + 1) for i in range(nrows)]])
             if case.get("wide"):
                 nrows = len(spec["curves"][0][4])
                 spec["curves"] = spec["curves"][:1] + [["W%d" % j, "u", "", "wide %d" % j, [round(100.0 * j + i + 0.25, 2) for i in range(nrows)]] for j in range(case["wide"])]
@@ -191,6 +196,11 @@ def run_case(case, ctx):
         return
     text_blanks = any(np.asarray(c.data).dtype.kind in "USO" and any(" " in str(v).strip() or str(v).strip() == "" for v in np.asarray(c.data).tolist())
                       for c in src.curves)
+    text_dates = any(np.asarray(c.data).dtype.kind in "USO" and any(re.search(r"\d-\d", str(v)) for v in np.asarray(c.data).tolist()) for c in src.curves)
+    if (e1 is None) != (e2 is None) and text_dates and not text_blanks and bool(cfg1.get("wrap")) != bool(cfg2.get("wrap")):
+        ctx.violation("one-config-unreadable:wrapped-text-samples-digit-hyphen-digit", "output of cfg%d cannot be re-read (%r), the other can" % (1 if e1 else 2, e1 or e2),
+                      dict(detail, text=(t1 if e1 else t2)[:3000]))
+        return
     if (e1 is None) != (e2 is None):
         key = "one-config-unreadable:text-curve-values-with-blanks-written-unquoted" if text_blanks else \
               "one-config-unreadable:%s" % type(e1 or e2).__name__
